@@ -71,7 +71,7 @@ def main():
             meta["ran"].append(f"whole test suite in the patched worktree: {len(base) - len(missing)}/{len(base)} baseline tests pass")
         # the check
         t0 = time.time()
-        env2 = dict(os.environ, PYLIFE_REPO=wt)
+        env2 = dict(os.environ, PYLIFE_REPO=wt, VERIF_EVIDENCE_DIR=tempfile.mkdtemp(prefix="seedev."))
         rc, out = sh(["./check", prop, "--tier", tier], cwd=VERIF, env=env2, timeout=7200)
         vio = [l for l in out.splitlines() if l.startswith("VIOLATION")]
         meta["check"] = {"cmd": f"PYLIFE_REPO=<patched worktree> ./check {prop} --tier {tier}", "exit": rc, "violation_line": vio[:1], "seconds": round(time.time() - t0),
